@@ -108,6 +108,11 @@ def temporal_dag(G, u, v=None, start=None, end=None):
                     if not isinstance(an, str) or (isinstance(an, str) and '_' not in an):
                         an = f"{an}_{tid}"
                         sources[an] = None
+                        DG.add_node(an)
+
+                if n == an:
+                    # self-loop of the root at this snapshot: not a hop, and it would close a cycle
+                    continue
 
                 DG.add_edge(an, n)
                 to_add.append(n)
